@@ -36,8 +36,12 @@
 //	hops   0|1|2                      reverse_proxy request header ops (header_up): none | set an unrelated
 //	                                  field from an upstream placeholder | delete X-Forwarded-Host
 //
-//	lb     0|1|2                      reverse_proxy selection policy: default | client_ip_hash over three
-//	                                  upstreams (oracle only) | cookie (answer field ck = Secure attribute)
+//	lb     0|1|2|3                    reverse_proxy selection policy: default | client_ip_hash over three
+//	                                  upstreams (oracle only) | cookie (answer field ck = Secure attribute) |
+//	                                  3 = default policy with the real FASTCGI transport (php_fastcgi's) to a
+//	                                  FastCGI responder of the harness: the answer ends in
+//	                                  "fcgi ra=<REMOTE_ADDR> rp=<REMOTE_PORT> xff=<S> xfp=<S> xfh=<S>" with S the
+//	                                  sorted set of values HTTP_X_FORWARDED_* was seen to take (absent | hex)
 //	rt     . | PA,PA,…                 per range string of srvT then hT: netip.ParsePrefix ok, netip.ParseAddr ok
 //	                                  (a configuration with an invalid range answers "provision-error")
 //	mode   0|1                        0 GET over HTTP/1.1, 1 websocket over HTTP/2 (extended CONNECT,
@@ -76,6 +80,7 @@ import (
 	"github.com/caddyserver/caddy/v2"
 	"github.com/caddyserver/caddy/v2/modules/caddyhttp"
 	"github.com/caddyserver/caddy/v2/modules/caddyhttp/reverseproxy"
+	_ "github.com/caddyserver/caddy/v2/modules/caddyhttp/reverseproxy/fastcgi"
 	"github.com/caddyserver/caddy/v2/modules/caddyhttp/templates"
 
 	"verif/harness/internal/core"
@@ -91,9 +96,11 @@ type obs struct {
 	clientIP                     string
 	trusted                      bool
 	sent                         bool
-	out                          http.Header    // the attempt that succeeded (the last one)
-	attempts                     []http.Header  // every attempt handed to the transport, in order
-	upstreams                    []string       // … and the upstream each one was directed to
+	out                          http.Header       // the attempt that succeeded (the last one)
+	attempts                     []http.Header     // every attempt handed to the transport, in order
+	upstreams                    []string          // … and the upstream each one was directed to
+	env                          map[string]string // lb=3: the CGI parameters the FastCGI responder received
+	envSets                      [3]map[string]bool
 	cookie                       string         // Secure attribute of the sticky cookie(s): "1", "0", "mixed", "-" (none set)
 	failLeft                     int            // round trips that still have to fail (upstream "down")
 	dynRanges                    []netip.Prefix // what the request-scoped IPRangeSource answers for this request
@@ -227,6 +234,23 @@ func (DynSource) GetIPRanges(r *http.Request) []netip.Prefix {
 	return nil
 }
 
+var fcgiNames = [3]string{"HTTP_X_FORWARDED_FOR", "HTTP_X_FORWARDED_PROTO", "HTTP_X_FORWARDED_HOST"}
+
+// fcgiCollision: did the client send a field that is not one of the three forwarding fields but is spelled
+// so that CGI gives it the same variable name (X_Forwarded_For)?
+func fcgiCollision(hdrs []hdrField) bool {
+	for _, f := range hdrs {
+		n := strings.NewReplacer(" ", "_", "-", "_").Replace(strings.ToUpper(f.name))
+		c := http.CanonicalHeaderKey(f.name)
+		for i, e := range fcgiNames {
+			if "HTTP_"+n == e && c != fwdNames[i] {
+				return true
+			}
+		}
+	}
+	return false
+}
+
 var errUpstreamDown = fmt.Errorf("verif: upstream down")
 
 var registerOnce sync.Once
@@ -244,26 +268,27 @@ func register() {
 type hdrField struct{ name, value string }
 
 type kase struct {
-	srvT    []string // nil = not configured
-	srvTNil bool
-	srvDyn  bool // the ranges come from a request-scoped IPRangeSource module (one server, changing ranges)
-	cih     []string
-	cihNil  bool
-	strict  int
-	hT      []string
-	omit    [3]bool
-	remote  string
-	tls     bool
-	early   bool // r.TLS set but the handshake is not complete: the request arrived as 0-RTT data
-	tlsConn bool // r.TLS is nil; the TLS state is only known through the connection in the context (listener wrappers)
-	host    string
-	hdrs    []hdrField
-	tbl     string // as given on the line ("" when the line is being built)
-	fails   int    // 0..2 round trips fail before one succeeds (proxy retry loop)
-	rt      string // as given on the line: net/netip's verdict on every range string
-	lb      int    // load-balancing policy: 0 default, 1 client_ip_hash over three upstreams, 2 cookie
-	mode    int    // 0 plain GET over HTTP/1.1, 1 websocket over HTTP/2 (extended CONNECT with :protocol)
-	hops    int    // request header ops of reverse_proxy: 0 none, 1 set an unrelated field, 2 delete X-Forwarded-Host
+	srvT       []string // nil = not configured
+	srvTNil    bool
+	srvDyn     bool // the ranges come from a request-scoped IPRangeSource module (one server, changing ranges)
+	cih        []string
+	cihNil     bool
+	strict     int
+	hT         []string
+	omit       [3]bool
+	remote     string
+	tls        bool
+	early      bool // r.TLS set but the handshake is not complete: the request arrived as 0-RTT data
+	tlsConn    bool // r.TLS is nil; the TLS state is only known through the connection in the context (listener wrappers)
+	host       string
+	hdrs       []hdrField
+	tbl        string // as given on the line ("" when the line is being built)
+	fails      int    // 0..2 round trips fail before one succeeds (proxy retry loop)
+	noResample bool   // internal: do not repeat the request (fastcgi map-order sampling)
+	rt         string // as given on the line: net/netip's verdict on every range string
+	lb         int    // load-balancing policy: 0 default, 1 client_ip_hash over three upstreams, 2 cookie
+	mode       int    // 0 plain GET over HTTP/1.1, 1 websocket over HTTP/2 (extended CONNECT with :protocol)
+	hops       int    // request header ops of reverse_proxy: 0 none, 1 set an unrelated field, 2 delete X-Forwarded-Host
 }
 
 func listField(xs []string, isNil bool, hexed bool) string {
@@ -428,7 +453,7 @@ func parseLine(line string) (*kase, bool) {
 	k.tbl = f[10]
 	k.rt = f[15]
 	switch f[14] {
-	case "0", "1", "2":
+	case "0", "1", "2", "3":
 		k.lb = int(f[14][0] - '0')
 	default:
 		return nil, false
@@ -625,6 +650,7 @@ type prop struct {
 	order   []string
 	cancels map[string]func()
 	dir     string
+	seq     int
 }
 
 func New() core.Prop {
@@ -756,6 +782,10 @@ func (p *prop) server(k *kase) (*caddyhttp.Server, error) {
 		rp["load_balancing"] = map[string]any{"retries": 3, "selection_policy": map[string]any{"policy": "client_ip_hash"}}
 	case 2:
 		rp["load_balancing"] = map[string]any{"retries": 3, "selection_policy": map[string]any{"policy": "cookie", "name": "lb"}}
+	case 3:
+		// the real fastcgi transport (what php_fastcgi configures) towards the harness's FastCGI responder
+		rp["transport"] = map[string]any{"protocol": "fastcgi", "root": "/srv"}
+		rp["upstreams"] = []any{map[string]any{"dial": fcgi().addr}}
 	}
 	switch k.hops {
 	case 1:
@@ -862,9 +892,18 @@ func (p *prop) serve(k *kase, hdrs []hdrField) (string, *obs, error) {
 	} else if k.tls {
 		r.TLS = &tls.ConnectionState{HandshakeComplete: !k.early, Version: tls.VersionTLS13}
 	}
+	fcgiID := ""
+	if k.lb == 3 {
+		p.seq++
+		fcgiID = strconv.Itoa(p.seq)
+		h.Set("X-Verif-Id", fcgiID)
+	}
 	r = r.WithContext(ctx)
 	w := httptest.NewRecorder()
 	s.ServeHTTP(w, r)
+	if k.lb == 3 {
+		o.env = fcgi().take(fcgiID)
+	}
 	if !o.probed {
 		return "noprobe status=" + strconv.Itoa(w.Code), o, nil
 	}
@@ -895,6 +934,47 @@ func (p *prop) serve(k *kase, hdrs []hdrField) (string, *obs, error) {
 	}
 	head := "ip=" + core.Hex(o.clientIP) + " tp=" + b01(o.trusted) + " ph=" + core.Hex(o.placeh) + " tm=" + core.Hex(o.tmplIP) + " lg=" + lg +
 		" cm=" + b01(o.matchedIP) + " rm=" + b01(o.remoteHit) + " pp=" + pp + " ck=" + o.cookie
+	if k.lb == 3 {
+		if o.env == nil {
+			if w.Code == 500 {
+				return head + " err", o, nil
+			}
+			return head + " status=" + strconv.Itoa(w.Code), o, nil
+		}
+		// which of several fields with the same CGI name wins depends on Go's map order: collect what is
+		// observable over repeated runs of the same request when the client sent such a field
+		sets := [3]map[string]bool{{}, {}, {}}
+		add := func(env map[string]string) {
+			for i, n := range fcgiNames {
+				if v, ok := env[n]; ok {
+					sets[i][core.Hex(v)] = true
+				} else {
+					sets[i]["absent"] = true
+				}
+			}
+		}
+		add(o.env)
+		if !k.noResample && fcgiCollision(hdrs) {
+			k2 := *k
+			k2.noResample = true
+			for i := 0; i < 160; i++ {
+				if _, o2, err := p.serve(&k2, hdrs); err == nil && o2.env != nil {
+					add(o2.env)
+				}
+			}
+		}
+		o.envSets = sets
+		show := func(m map[string]bool) string {
+			var xs []string
+			for x := range m {
+				xs = append(xs, x)
+			}
+			sort.Strings(xs)
+			return strings.Join(xs, "|")
+		}
+		return head + " fcgi ra=" + core.Hex(o.env["REMOTE_ADDR"]) + " rp=" + core.Hex(o.env["REMOTE_PORT"]) +
+			" xff=" + show(sets[0]) + " xfp=" + show(sets[1]) + " xfh=" + show(sets[2]), o, nil
+	}
 	if !o.sent {
 		if w.Code == 500 {
 			return head + " err", o, nil
